@@ -180,7 +180,11 @@ func checkStateGraph(x *Ctx, role, name string) {
 		case "state":
 			st := e.N
 			seq = append(seq, st)
-			if !edgeAllowed(role, prev, st) {
+			// once the end of the connection has been reported (closed by another goroutine
+			// while a message was being handled), the handler's progress is no longer
+			// reported (fix 'no progress after close'); the end state it finally reaches
+			// is, and has no reported predecessor
+			if !(terminalSeq != 0 && terminalState == -1 && isTerminalState(st)) && !edgeAllowed(role, prev, st) {
 				x.Violate("illegal-transition", fmt.Sprintf("%s:%d>%d", role, prev, st), fmt.Sprintf("%s role reported state %d after %d, which the SHIP state graph does not allow (sequence %v)", role, st, prev, seq))
 				return
 			}
